@@ -158,8 +158,8 @@ static bool oneOp(C& a, Model& ma, C& b, Model& mb)
   case 2: { a.append(b); for(unsigned i = 0; i < mb.n; ++i) ma.insertAt(ma.n, mb.v[i], 0); break; }
   case 3: { unsigned n = vf_pick(3); int tmp[2]; for(unsigned i = 0; i < n; ++i) tmp[i] = (int)vf_u32();
             E vals[2] = {E(n > 0 ? tmp[0] : 0), E(n > 1 ? tmp[1] : 0)}; a.append(vals, n); for(unsigned i = 0; i < n; ++i) ma.insertAt(ma.n, tmp[i], 0); break; }
-  case 4: { unsigned n = vf_pick(VF_N + 3); int x = (int)vf_u32(); a.resize(n, E(x)); while(ma.n > n) ma.removeAt(ma.n - 1); while(ma.n < n) ma.insertAt(ma.n, x, 0); break; }
-  case 5: { unsigned n = vf_pick(VF_N + 6); a.reserve(n); vf_assert(a.capacity() >= n, "reserve: capacity >= request"); break; }
+  case 4: { unsigned n = vf_pick(ma.n + 4); int x = (int)vf_u32(); a.resize(n, E(x)); while(ma.n > n) ma.removeAt(ma.n - 1); while(ma.n < n) ma.insertAt(ma.n, x, 0); break; }
+  case 5: { unsigned n = vf_pick(ma.n + 6); a.reserve(n); vf_assert(a.capacity() >= n, "reserve: capacity >= request"); break; }
   case 6: { a.swap(b); Model t = ma; ma = mb; mb = t; break; }
   case 7: { a = b; ma = mb; break; }
   case 8: { C cpy(a); Model mc = ma; check(cpy, mc, false); break; }
